@@ -114,10 +114,11 @@ pub open spec fn wf_line(l: Seq<u8>, a: V1Addresses) -> bool {
 
 /// the examined line of an input: through the byte after its first CR (the whole input when
 /// there is no CR or the CR is its last byte)
-pub open spec fn v1_window(s: Seq<u8>) -> Seq<u8> {
+pub open spec fn v1_window_len(s: Seq<u8>) -> int {
     let cr = first_index_of(s, 13u8);
-    if cr < s.len() { s.subrange(0, if cr + 2 <= s.len() { cr + 2 } else { s.len() as int }) } else { s }
+    if cr < s.len() { if cr + 2 <= s.len() { cr + 2 } else { s.len() as int } } else { s.len() as int }
 }
+pub open spec fn v1_window(s: Seq<u8>) -> Seq<u8> { s.subrange(0, v1_window_len(s)) }
 /// the input contains its first CR followed by at least one more byte
 pub open spec fn v1_terminated(s: Seq<u8>) -> bool {
     first_index_of(s, 13u8) + 1 < s.len()
@@ -279,3 +280,31 @@ pub open spec fn addr_post<T: std::str::FromStr>(parts: Seq<Seq<u8>>, r: Result<
             && pos2 == 6),
     }
 }
+
+
+// ---- verdicts of the public entry points -------------------------------------------------------
+/// v1::Header::try_from(&str) on the bytes `s` of the string
+pub open spec fn entry_verdict_str(s: Seq<u8>) -> V1V {
+    if first_index_of(s, 13u8) >= s.len() && s.len() >= 107 { V1V::Reject(V1K::HeaderTooLong) }
+    else if !str_cut_ok(s, v1_window(s).len() as int) { V1V::Reject(V1K::InvalidSuffix) }
+    else { header_verdict(v1_window(s)) }
+}
+
+/// verdict of the byte entry point: additionally "not valid UTF-8"
+pub enum V1BV { Line(V1V), InvalidUtf8 }
+pub open spec fn entry_verdict_bytes(b: Seq<u8>) -> V1BV {
+    if first_index_of(b, 13u8) >= b.len() && b.len() >= 107 { V1BV::Line(V1V::Reject(V1K::HeaderTooLong)) }
+    else if !valid_utf8(v1_window(b)) { V1BV::InvalidUtf8 }
+    else { V1BV::Line(header_verdict(v1_window(b))) }
+}
+pub open spec fn bin_realises(w: Seq<u8>, r: Result<V1Header, V1BinError>, v: V1BV) -> bool {
+    match v {
+        V1BV::InvalidUtf8 => (r matches Err(V1BinError::InvalidUtf8(_))),
+        V1BV::Line(V1V::Accept(a)) => (r matches Ok(h) && h.addresses == a && cow_str_bytes(h.header) =~= w),
+        V1BV::Line(V1V::Reject(k)) => (r matches Err(V1BinError::Parse(e)) && v1_kind(e) == k),
+    }
+}
+pub open spec fn v1v_incomplete(v: V1V) -> bool { v matches V1V::Reject(k) && v1k_incomplete(k) }
+pub open spec fn v1bv_incomplete(v: V1BV) -> bool { v matches V1BV::Line(l) && v1v_incomplete(l) }
+pub open spec fn v1_res_incomplete(r: Result<V1Header, V1Error>) -> bool { r matches Err(e) && v1_err_incomplete(e) }
+pub open spec fn v1_bin_res_incomplete(r: Result<V1Header, V1BinError>) -> bool { r matches Err(e) && v1_bin_err_incomplete(e) }
